@@ -438,14 +438,15 @@ func init() {
 			addr = &Addr{Kind: aPtr, Ref: target.T, ElemT: pt.Elem()}
 		}
 		e.storeTo(st, addr, v)
-		if _, isPtr := pt.Elem().Underlying().(*types.Pointer); isPtr && strings.Contains(c.StaticCallee().String(), "BurntSushi/toml") {
-			// BurntSushi/toml allocates the target when it is a nil pointer (a TOML document is always a table)
+		if _, isPtr := pt.Elem().Underlying().(*types.Pointer); isPtr && (strings.Contains(c.StaticCallee().String(), "BurntSushi/toml") || strings.Contains(c.StaticCallee().String(), "encoding/xml")) {
+			// BurntSushi/toml allocates the target when it is a nil pointer (a TOML document is always a table);
+			// encoding/xml allocates it when it finds the root element and reports io.EOF otherwise
 			errT := res
 			if len(res.Tuple) > 0 {
 				errT = res.Tuple[len(res.Tuple)-1]
 			}
 			e.assume(st, implies("(= "+errT.T+" 0)", and("(> "+v.T+" 0)", "(<= "+v.T+" "+e.allocCounter(st)+")")))
-			e.w.Trusted["toml.Decoder.Decode allocates a nil pointer target on success"] = true
+			e.w.Trusted["toml/xml Decoder.Decode allocates a nil pointer target on success (json and yaml do not: null / ~)"] = true
 		}
 		e.w.Trusted["decoder as a deterministic function of its reader (stream contract): "+c.StaticCallee().String()] = true
 		return res, true
